@@ -6,6 +6,9 @@ CLAIMED = {
  "C06": dict(design="5.2/C06", technique="Coq proof over the renderer + terminal (tape) model; differential harness on the real renderer's token stream; screen oracle evaluated in Coq on the real output",
              text="The renderer model (flush/write/alt/clear/print/resize/stop mirrored from standard_renderer.go) equals the real renderer token for token on generated histories; the real token stream is applied to the Coq terminal model and the Spec (view occupies exactly the right rows, nothing stale below, rows above untouched, cursor at column 0; alt screen: first n rows, rest blank) is evaluated after every render for both cursor-visibility conventions. F3 (shrinking frame erased its last line) was found this way and repaired. See evidence theorems list for the flush/Sync theorems proved in this revision.",
              note="Trusted: Coq kernel + vm_compute; harness + tokenizer; the VT model is the stated xterm subset, no real terminal in the loop; width-1 printable glyphs only in the theorems (wide runes / embedded SGR outside); inline resizes and the deprecated scroll-area API not claimed. No axioms."),
+ "C07": dict(design="5.2/C07", technique="Coq proof over the renderer + terminal model (stop = flush + erase-line); differential harness; final-screen oracle evaluated in Coq on the real output",
+             text="Histories with any placement of flushes (ticker timing), 0..5 coalesced intermediate views, ending in Write v_f; Stop: the real token stream applied to the Coq terminal leaves every newline-terminated line of the final view in place, the row after them blank with the cursor at column 0, rows above untouched (Spec.shows_final_inline); write replaces the pending frame (theorem) so no later view is replaced by an earlier one. The ticker/stop handshake of Run is part of the runtime skeleton (C04).",
+             note="Trusted: as C06. Alt-screen programs leave the final view in the alt buffer; stated for inline. No axioms."),
  "C08": dict(design="5.1/C08", technique="Coq proof over the decoder model + kernel-checked table facts; key table regenerated from key.go and compared with the frozen documented table (tie); differential harness with Spec evaluated on real output",
              text="Tie_KeyTable: the table extracted from key.go on every run equals the frozen documented table; table facts (distinct, non-empty keys = documented keys) by computation; the decode(encode evs) = expect evs statement is evaluated in Coq on the real decoder's output for every table entry (+alt) x successor classes, every control byte in text, boundary scalars and random well-formed streams; the model equals the implementation on all of them and on malformed streams.",
              note="Trusted: Coq kernel + vm_compute; goextract; harness; frozen RefTable.v as the documentation-side oracle. Stream theorem C08_stream: see evidence theorems list for what is proved in this revision. No axioms."),
@@ -18,9 +21,15 @@ CLAIMED = {
  "C11": dict(design="5.1/C11", technique="Coq proof (mod-256 lift + kernel-checked 256-code sweep, itoa/atoi round trip, SGR scanner) + differential harness on detectOneMsg/readAnsiInputs",
              text="C11_sgr / C11_x10: for every code, every coordinate and any following bytes the model of detectOneMsg returns the xterm-specified mouse message and consumes exactly the report's bytes; unbounded in code and coordinates. Constants/bit masks/regex are regenerated from mouse.go, key.go on every run (tie); the model is compared with the real decoder on all 256x2 SGR and 224 X10 codes, huge numbers, embedded reports and malformed near-misses, and the Spec is evaluated on the real output.",
              note="Trusted: Coq kernel + vm_compute; goextract; harness; Go regexp/strconv mirrored by match_sgr/atoi_sat (validated by K2). Spec fixes the one case xterm never emits (SGR low bits 3) as release of no button. Deprecated MouseEvent.Type is compared with the model only, not specified. No axioms."),
+ "C14": dict(design="5.2/C14", technique="Coq proof over the renderer + terminal tape model (rows above the view are a list prefix); differential harness; rows-above oracle evaluated in Coq on the real output",
+             text="Print-heavy histories (single/multi-line, widths 0..2W+3, views of every height so that printing scrolls, prints during alt screen): after every render the rows above the view equal the initial rows followed by the wrapped printed lines, in order (append-only prefix of the tape), on the real renderer's token stream; model = implementation token for token. F10 (wrapped printed line kept stale cells) found and repaired.",
+             note="Trusted: as C06. No axioms."),
  "C15": dict(design="5.1/C15", technique="Coq proof over the reader model + boundary-sweep differential harness; Spec evaluated on real output",
              text="Every event kind at every offset around the 256-byte boundary and random long streams, read in 256-byte reads: the real reader's messages equal the one-shot meaning of the events (Spec in Coq) and the model's. F5 (events split at the boundary) was found by this check on the pinned tree and repaired.",
              note="Trusted: as C09. See evidence theorems list for the chunk-invariance theorems proved in this revision. No axioms."),
+ "C19": dict(design="5.2/C19", technique="Coq proofs (silence, write never emits, fps clamp over all integers) + differential harness with byte-cost oracle and real newRenderer frame intervals",
+             text="Theorems: re-rendering the displayed view emits nothing; write/resize/repaint/print never emit (output only at ticks, stop and explicit commands); frame interval = 1s/clamp(fps) for every integer fps with clamp in 1..120 and default 60. Real output: identical view => 0 bytes; re-render cost within the Spec bound for the changed lines; VerifFramerate for fps in -5..300 and extremes equals model and Spec.",
+             note="Trusted: as C06; time.Ticker's period (Go runtime) is assumed; the cost bound is evaluated by the orchestrator with the closed formula of Spec/Economy.v. No axioms."),
  "C20": dict(design="5.3/C20", technique="Coq proof over the translated delay expression (goextract -> gen/TimerExpr.v) + real-timer correspondence",
              text="Theorems over the delay expression translated from commands.go on every run: 0 < w <= d, (n+w) mod d = 0, least such multiple; not-early and message = fn(firing time) under the stated Go timer contract (hypothesis, hence _partial). Real Tick/Every runs are checked against the Spec predicates and a control timer.",
              note="Trusted: Coq kernel + vm; goextract translator; Go runtime timers/clock (hypothesis runtime_timer_ok); 100us clock-reading tolerance in the real-run check. No axioms."),
